@@ -2,6 +2,7 @@ package c17
 
 import (
 	"bufio"
+	"context"
 	"encoding/hex"
 	"encoding/json"
 	"fmt"
@@ -185,6 +186,10 @@ func replayOne(v *vector) (*checker, error) {
 			c.eq("ToHuman", "", v.URL, id.ToHuman(v.Bounce, v.Testnet))
 			c.parseAll(v.URL, none, want, want)
 			c.parseAll(v.Std, none, want, want)
+			// outside C17 (the account id is what must survive): does the root parser report the tag's bounce flag?
+			if a, err := rootParser.ParseAddress(context.Background(), v.URL); err == nil && a.Bounce != v.Bounce {
+				c.obs = append(c.obs, "tongo.ParseAddress.Bounce")
+			}
 			ma := id.ToMsgAddress()
 			bits, err := tlbEncode(ma)
 			c.eq("ToMsgAddress.MarshalTLB", "", v.Tlb, bits)
